@@ -17,7 +17,8 @@ RULE = ("forests of real Element objects (depth <= 4, repeated sibling names, mi
         ' ; lookups on a Document against the same lookups on an element holding its root; a schema tree attached by wsdl:import keeps its meaning'
         ' ; the referring node of a resolved reference stays itself; detach of a node its parent does not list'
         ' ; chains of references in any document order'
-        ' ; attributes of the referenced element next to the referrer\'s own')
+        ' ; attributes of the referenced element next to the referrer\'s own'
+        ' ; text of its own that a referrer had')
 ASSUMPTIONS = ["node identity is tracked by a harness-side map from Python objects to integers",
                "append/insert are exercised with detached nodes only (attaching an attached node aliases it in two "
                "child lists: outside the edit alphabet of the property)"]
